@@ -1220,7 +1220,7 @@ func runConc(r *mon.Run, idx int, wd time.Duration) (quiescent bool) {
 		}
 		// (B) parked and released by a completion received after the arrival and begun before the delivery
 		for _, c := range comps {
-			if c.Src == it.Src && c.End > it.A && c.Start < d.Stamp && matches(c.Inst) {
+			if c.Src == it.Src && (c.End == 0 || c.End > it.A) && c.Start < d.Stamp /* End == 0: the hand-over of the answer had begun but its end was not yet stamped when the log was read */ && matches(c.Inst) {
 				justified = true
 				if d.Stamp > it.B {
 					if it.Kind == "metric" {
